@@ -44,13 +44,19 @@ def one(sid):
                "failed_obligations": [o.split("/", 1)[1][:140] for o in obl][:12], "n_failed_obligations": len(obl),
                "bounded_clauses": cl[:12], "summary": [l for l in out.split("\n") if " quick: " in l][-1:]}
         json.dump(res, open(os.path.join(d, "recheck.json"), "w"), indent=1)
+        if meta and "--update-meta" in sys.argv:
+            meta.setdefault("checks", {})[prop] = {
+                "violations": res["violations"],
+                "by": res["bounded_clauses"] + ["obligation " + prop + "/" + o for o in res["failed_obligations"]][:12]}
+            meta["rechecked"] = "tools/reseed.py on a scratch copy of /repo (VERIF_REPO), current machinery"
+            json.dump(meta, open(os.path.join(d, "meta.json"), "w"), indent=1)
         return sid, res
     finally:
         shutil.rmtree(scratch, ignore_errors=True)
 
 
 def main():
-    args = [a for a in sys.argv[1:] if not a.startswith("-j")]
+    args = [a for a in sys.argv[1:] if not a.startswith("-")]
     j = [int(a[2:]) for a in sys.argv[1:] if a.startswith("-j")]
     ids = sorted(x for x in os.listdir(SEEDED) if os.path.isdir(os.path.join(SEEDED, x)))
     if args:
